@@ -8,12 +8,13 @@ RUNG1 = ("Machine-checked Lean 4 theorems (kernel-checked by `lake build`, axiom
          "executable model of the code, tied to /repo's current source on every run by a correspondence check (the real crate, "
          "rebuilt with the cfg(daachorse_verif) hooks, and the model are run on the same generated inputs and every difference is reported) "
          "and by a translator that regenerates the model's constants from the source. ")
+R2 = 'Rung 2 (proved end to end in the model of the builder, Proofs/Rung2.lean): for EVERY valid collection and every num_free_blocks, buildDA = ok da implies the result below, through kernel-checked theorems for insertion, fail links/outputs ((F),(G1),(G3) for the leftmost kinds), the ring-buffer helper, BASE uniqueness and CHECK sanitising of the byte-wise layout (incl. the pigeonhole for full blocks) and the char-wise layout; the model builder is tied to the code by K-build (byte-identical tables, evicted blocks included). Not proved: that the post-insertion phases never panic on valid input (totality). '
 TEXT = {
- 'C01': RUNG1 + "Theorem: any tables satisfying the decidable invariants tableInv+sizeInv for a valid pattern list return, for EVERY haystack, exactly specOverlapping (= exactly the occurrences, no repeats, end-ascending then longest-first: proved of the spec). Byte-wise at byte level; char-wise at byte level on valid UTF-8 via the self-synchronisation proof (Props/C08). The invariants are evaluated by compiled Lean on the tables the implementation actually built, for every generated automaton (all nodes x all 256 labels / all mapped codes + unmapped), every num_free_blocks, both entry points. Not proved: that every pattern set yields tables satisfying the invariants (fail/output/layout phases of the builder) - replaced by that per-instance evaluation.",
- 'C02': RUNG1 + "Theorem: tables satisfying tableInv+sizeInv answer find_iter on every haystack exactly like specFind, which is proved to be the unique sequence of the property (FindSpec: earliest end, then longest, resume at that end; non-overlapping, increasing, true occurrences). Invariants evaluated on every built automaton; builder phases after insertion not proved.",
- 'C03': RUNG1 + "Theorem: tables satisfying leftmostInv ((G1) reported pattern and (G3) leftmost transition, every node x every label) answer leftmost_find_iter on every haystack exactly like specLL, proved to be the unique greedy tiling (LLSpec, no occurrence in a gap). Includes the string-combinatorics proof that the non-textbook leftmost automaton returns the leftmost-longest occurrence, and the simulation of the iterator incl. the char-wise byte bookkeeping. Invariant evaluated on every built leftmost automaton; builder phases after insertion not proved.",
- 'C04': RUNG1 + "As C03 for the retained pattern list, plus the specification theorems specLF = specLL o retained, shadowed patterns are never reported and never change results; the insertion phase is proved to register exactly the retained patterns (Props/C10, C15). All permutations of small sets are generated.",
- 'C05': RUNG1 + "Theorem: tables satisfying tableInv+sizeInv answer find_overlapping_no_suffix_iter on every haystack exactly like specNoSuffix = exactly one match per end position with an occurrence, the longest, in increasing order (proved), = head-per-end of the overlapping result.",
+ 'C01': RUNG1 + R2 + "Theorem: any tables satisfying the decidable invariants tableInv+sizeInv for a valid pattern list return, for EVERY haystack, exactly specOverlapping (= exactly the occurrences, no repeats, end-ascending then longest-first: proved of the spec). Byte-wise at byte level; char-wise at byte level on valid UTF-8 via the self-synchronisation proof (Props/C08). The invariants are evaluated by compiled Lean on the tables the implementation actually built, for every generated automaton (all nodes x all 256 labels / all mapped codes + unmapped), every num_free_blocks, both entry points. Additionally (Rung 1) the invariants are evaluated on the implementation's own tables, so for every automaton a run builds the all-haystacks conclusion holds without any model of the builder.",
+ 'C02': RUNG1 + R2 + "Theorem: tables satisfying tableInv+sizeInv answer find_iter on every haystack exactly like specFind, which is proved to be the unique sequence of the property (FindSpec: earliest end, then longest, resume at that end; non-overlapping, increasing, true occurrences). Invariants additionally evaluated on every built automaton (Rung 1, no builder model involved).",
+ 'C03': RUNG1 + R2 + "Theorem: tables satisfying leftmostInv ((G1) reported pattern and (G3) leftmost transition, every node x every label) answer leftmost_find_iter on every haystack exactly like specLL, proved to be the unique greedy tiling (LLSpec, no occurrence in a gap). Includes the string-combinatorics proof that the non-textbook leftmost automaton returns the leftmost-longest occurrence, and the simulation of the iterator incl. the char-wise byte bookkeeping. Invariant additionally evaluated on every built leftmost automaton (Rung 1). Char-wise leftmost-longest end to end proved; ",
+ 'C04': RUNG1 + R2 + "As C03 for the retained pattern list, plus the specification theorems specLF = specLL o retained, shadowed patterns are never reported and never change results; the insertion phase is proved to register exactly the retained patterns (Props/C10, C15). All permutations of small sets are generated.",
+ 'C05': RUNG1 + R2 + "Theorem: tables satisfying tableInv+sizeInv answer find_overlapping_no_suffix_iter on every haystack exactly like specNoSuffix = exactly one match per end position with an occurrence, the longest, in increasing order (proved), = head-per-end of the overlapping result.",
  'C06': RUNG1 + "Corollary of C01-C05: every element of every specification result is IsOcc (bounds, matched bytes = a registered key, value = the one registered with it), for all value types (the model is parametric in V). Values after a round trip: C09 equality. Tie: K-search with all value types and adversarial values, K-serial, K-build incl. index conversion failures.",
  'C07': RUNG1 + "Theorems: on tables satisfying boundsInv (evaluated over ALL elements of every dumped table) no search method can fault with an out-of-range states/outputs access on any haystack; XOR child indices stay in range; the hand-written UTF-8 decoder on valid UTF-8 never reads past the end nor builds an invalid char and inverts the reference encoder; the leftmost iterator's get_unchecked(pos..) is always at a boundary. Residue: real memory behaviour of compiled code - covered by running every case with std's unsafe-precondition checks armed (abort = failing input) and by the scan of unchecked sites.",
  'C08': RUNG1 + "Theorems: char-wise and byte-wise tables satisfying the invariants for the same UTF-8 patterns both equal the same byte-level specification on every valid UTF-8 haystack (overlapping, find, no-suffix, leftmost-longest), via a proof that the model decoder inverts UTF-8 encoding and the self-synchronisation lemma (occurrences start/end on character boundaries; nothing starts or ends inside a character); unmapped characters go to the root without table access. Pairs of B/C automata from identical inputs are compared directly on every run.",
